@@ -297,7 +297,10 @@ def resp_bytes(r):
     line = r["version"] + b" %d" % r["status"] + ((b" " + r["reason"]) if r["reason"] else b"")
     lines = r["fields"] + r["extra"] + _fill(r["framing"], _declared_len(r["bw"]))
     eol = r["eol"]
-    return line + eol + b"".join(l + eol for l in lines) + eol + render_body(r["bw"])
+    raw = line + eol + b"".join(l + eol for l in lines) + eol + render_body(r["bw"])
+    if r.get("trim") is not None:
+        raw = raw[: r["trim"]]
+    return raw
 
 
 # ---- addon edits ---------------------------------------------------------------------------------------------
